@@ -438,6 +438,8 @@ def _ph_key(phases):
 
 def _ph_sig(setup, p, op):
     cls, name, init = setup['phases'][p]
+    if setup['via'] == 'direct-shared':       # one defect class (aliasing through the caller's list): one signature
+        return {'part': 'phases', 'cls': PH_CLS[cls], 'via': 'direct-shared'}
     return {'part': 'phases', 'cls': PH_CLS[cls], 'init': 'no-species-arg' if init is None else 'species-arg',
             'via': setup['via'], 'op': op[0] if op else 'construct'}
 
@@ -452,7 +454,7 @@ def _ph_listing(phases, refl, setup, op, ctx, case):
     """Clause on every state and transition: each phase lists exactly its own species/elements."""
     ok = True
     for p, lst, names in GIVEN:
-        sig = dict(_ph_sig(setup, p, op), item="caller's list")
+        sig = {'part': 'phases', 'cls': PH_CLS[setup['phases'][p][0]], 'item': "caller's list"}
         ok &= ctx.true(C_PH_GIVEN, [s.name for s in lst] == names, sig, case, [s.name for s in lst], names)
     for p, ph in enumerate(phases):
         sig = _ph_sig(setup, p, op)
